@@ -128,6 +128,15 @@ def make_copy():
     return root, dst
 
 
+def rebuild_in(src_dir):
+    """Compile C files that are newer than their built module in a scratch copy (same rule as check.py)."""
+    env = dict(os.environ)
+    env["PYTHONPATH"] = src_dir
+    p = subprocess.run([PY, "-c", f"import sys; sys.path.insert(0, {HERE!r}); import check; print(check.rebuild_extensions())"],
+                       env=env, capture_output=True, text=True)
+    return p.stdout.strip()
+
+
 def run_check_against(src_dir, prop, runs=None):
     env = dict(os.environ)
     env["PYTHONPATH"] = src_dir + os.pathsep + env.get("PYTHONPATH", "")
@@ -183,6 +192,17 @@ def seeded(ids):
                 print(f"seeded {sid}: patch does not apply: {p.stdout[-500:]}")
                 failed += 1
                 continue
+            cp = os.path.join(d, "c_patch.diff")
+            if os.path.isfile(cp):
+                # change to compiled code: patch the generated C file too; check.py recompiles it (C newer than module)
+                cfile = os.path.join(src, "biotite/structure/bonds.c")
+                shutil.copy("/repo/src/biotite/structure/bonds.c", cfile)
+                p = subprocess.run(["patch", "-p1", "-d", os.path.dirname(src), "-i", cp], capture_output=True, text=True)
+                if p.returncode != 0:
+                    print(f"seeded {sid}: C patch does not apply: {p.stdout[-500:]}")
+                    failed += 1
+                    continue
+                os.utime(cfile, None)
             t0 = time.time()
             rc, out, err = run_check_against(src, meta["property"])
             sig = [l for l in out.splitlines() if l.startswith("violation signature")]
